@@ -312,7 +312,8 @@ def run_existing(job, acc):
     schema = r.choice(list(SCHEMAS))
     target = SCHEMAS[schema]
     classes = ["valid", "empty", "random-bytes", "text", "truncated", "newer", "no-version-row", "no-version-table",
-               "older-without-upgrader", "create-only-on-existing", "open-only-missing", "open-only-existing", "magic-then-junk"]
+               "older-without-upgrader", "create-only-on-existing", "open-only-missing", "open-only-existing", "magic-then-junk",
+               "create-next-to-siblings"]
     cls = classes[s % len(classes)]
     base = new_workdir("c19e")
     case = "existing:%s:%s:%d" % (cls, schema, s)
@@ -361,6 +362,20 @@ def run_existing(job, acc):
             make_valid(database, schema, path, r)
             opener = lambda: database.open_existing_db(path)
             expect = "keep"
+        elif cls == "create-next-to-siblings":
+            expect = "create"
+        # other files of the same installation live next to the database (e.g. --usage-db relay.sqlite.usage,
+        # backups, unrelated files): whatever happens to `path`, they are never touched
+        siblings = {}
+        if s % 2 == 0 or cls == "create-next-to-siblings":
+            sib_schema = "usage" if schema == "channel" else "channel"
+            make_valid(database, sib_schema, path + "." + sib_schema, r, nrows=5)
+            open(path + ".bak", "wb").write(b"backup bytes %d" % s)
+            open(os.path.join(base, "unrelated.txt"), "wb").write(b"x" * 100)
+            open(path + "-old", "wb").write(b"SQLite format 3\x00 not really")
+            for f in os.listdir(base):
+                if os.path.join(base, f) != path:
+                    siblings[f] = F.file_bytes(os.path.join(base, f))
         before_listing = F.listing(base)
         before = F.file_bytes(path) if os.path.exists(path) else None
         before_rows = None
@@ -377,7 +392,20 @@ def run_existing(job, acc):
         acc.ev["c19_existing_" + cls] += 1
         after = F.file_bytes(path) if os.path.exists(path) else None
         after_listing = F.listing(base)
-        if expect == "keep":
+        for f, data in siblings.items():
+            acc.ev["c19_sibling_file_checked"] += 1
+            fp = os.path.join(base, f)
+            if not os.path.exists(fp) or F.file_bytes(fp) != data:
+                viol(acc, case, "a neighbouring file was deleted or modified", {"file": f, "exists": os.path.exists(fp), "class": cls})
+                break
+        if expect == "create":
+            if exc is not None:
+                viol(acc, case, "creation next to other files fails", {"exc": repr(exc)})
+            else:
+                pr = F.complete_db_problems(path, fresh_schema(database, schema), target)
+                if pr:
+                    viol(acc, case, "database created next to other files is incomplete", {"problems": pr})
+        elif expect == "keep":
             if exc is not None:
                 viol(acc, case, "valid current-version database rejected", {"exc": repr(exc)})
             elif F.all_rows(path, skip=()) != before_rows:
@@ -406,7 +434,7 @@ def run_existing(job, acc):
         elif expect == "DBDoesntExist":
             if not isinstance(exc, database.DBDoesntExist):
                 viol(acc, case, "open-only entry point did not refuse a missing file", {"exc": repr(exc)})
-            elif after_listing:
+            elif after_listing != before_listing:
                 viol(acc, case, "open-only entry point created files", {"listing": after_listing})
         acc.cases += 1
         acc.distinct.add(case)
